@@ -1,4 +1,5 @@
 import TxdbusModel.Gen.Message
+import TxdbusModel.Route.Basic
 /-
 C14 - code model of the routing part of txdbus's built-in bus (`txdbus/bus.py`), as a step
 function over events.  Core Lean only.
@@ -68,6 +69,10 @@ structure Msg where
   /-- opaque token for the header fields whose code `_hcode` does not know ([] = there are none) -/
   extra : Name
   body : Name
+  /-- `msg.body` after unmarshalling, as the match-rule code sees it (C12's view: every string-like value is a
+  `str`, everything else is `other`; `none` = the message carries no signature).  A function of `body`
+  (signature + bytes) that this model does not compute: the unmarshaller is C02's / C11's. -/
+  args : Option (List Txdbus.Route.Arg) := none
   deriving DecidableEq, Repr, Inhabited
 
 def MType.cls : MType → Txdbus.Msg.MsgClass
@@ -94,7 +99,8 @@ def remarshal (m : Msg) (nm : Name) : Msg :=
     dest := if keeps m.mtype .destination then m.dest else none,
     sender := if keeps m.mtype .sender then some nm else none,
     extra := [],
-    body := m.body }
+    body := m.body,
+    args := m.args }
 
 /-- Python truthiness of `msg.destination` (None or '' are false). -/
 def truthy : Option Name → Bool
@@ -147,9 +153,9 @@ inductive Effect where
   | setOwner (n : Name) (j : ConnId)
   | unsetOwner (n : Name)
   /-- `sendSignal(p, member, sig, body)` -/
-  | signalTo (j : ConnId) (member : Name) (body : Name)
-  /-- `broadcastSignal(member, sig, body)` -/
-  | broadcast (member : Name) (body : Name)
+  | signalTo (j : ConnId) (member : Name) (body : Name) (args : Option (List Txdbus.Route.Arg))
+  /-- `broadcastSignal(member, sig, body)`; `args` = the body list as the match rules see it -/
+  | broadcast (member : Name) (body : Name) (args : Option (List Txdbus.Route.Arg))
   deriving Repr
 
 /-- Classification of a method call addressed to the bus by the object handler. -/
@@ -237,20 +243,20 @@ def modifyConn (s : State ρ) (i : ConnId) (f : Conn → Conn) : State ρ :=
   | none => s
 
 /-- The signal `sendSignal` / `broadcastSignal` build. -/
-def busSignalMsg (member body : Name) (dest : Option Name) : Msg :=
+def busSignalMsg (member body : Name) (args : Option (List Txdbus.Route.Arg)) (dest : Option Name) : Msg :=
   { mtype := .sig, serial := 0, noReply := false, noAutoStart := false, otherFlags := 0, extra := [],
     path := some busPath, iface := some busName, member := some member,
-    errorName := none, replySerial := none, dest := dest, sender := none, body := body }
+    errorName := none, replySerial := none, dest := dest, sender := none, body := body, args := args }
 
 def applyEffect (cfg : Cfg ρ) (s : State ρ) : Effect → State ρ × List Delivery
   | .setOwner n j => ({ s with owners := dset n j s.owners }, [])
   | .unsetOwner n => ({ s with owners := ddel n s.owners }, [])
-  | .signalTo j member body =>
+  | .signalTo j member body args =>
       -- SignalMessage(path, member, interface, p.uniqueName, signature, body); p.sendMessage(s)
       let dest := (s.conns[j]?).bind (·.uniqueName)
-      (s, [⟨j, .busSignal (busSignalMsg member body dest)⟩])
-  | .broadcast member body =>
-      let m := busSignalMsg member body none
+      (s, [⟨j, .busSignal (busSignalMsg member body args dest)⟩])
+  | .broadcast member body args =>
+      let m := busSignalMsg member body args none
       (s, route cfg s m (.busSignal m))
 
 def applyEffects (cfg : Cfg ρ) (s : State ρ) : List Effect → State ρ × List Delivery
